@@ -61,9 +61,9 @@ fn classify(f: &WorldFailure, _ops: &[Op], _opt: &OptSet) -> String {
 pub fn check(tier: Tier) -> i32 {
 	surrealkv::verif::set_forced_height(1);
 	let mut report = Report::new("C07", tier, "model_checking");
-	let budget = Budget::new(if tier == Tier::Quick { 45.0 } else { 900.0 });
+	let budget = Budget::new(if tier == Tier::Quick { 25.0 } else { 500.0 });
 	let bounds: Vec<(usize, usize)> = if tier == Tier::Quick {
-		vec![(1, 1), (2, 2), (2, 3), (2, 4), (3, 3), (3, 4), (3, 5), (4, 4)]
+		vec![(1, 1), (2, 2), (2, 3), (2, 4), (3, 3), (3, 4), (3, 5)]
 	} else {
 		vec![(1, 1), (2, 2), (2, 3), (2, 4), (3, 3), (3, 4), (3, 5), (4, 4), (4, 5), (4, 6), (5, 5), (5, 6)]
 	};
@@ -128,7 +128,13 @@ pub fn check(tier: Tier) -> i32 {
 	report.set("bounds_completed", json!(completed));
 	report.set("exhaustive", json!(all_complete));
 	report.set("failures_per_class", json!(stats.per_class));
-	report.assume("clean-close part only; crash images (incl. crashes inside recovery) are enumerated by the crashx engine");
+	report.assume("sequential part: clean close after every sequence; crash part: every crash image of the crashx workloads (incl. crash points inside the initial recovery of second-generation runs) is opened, crashed again, opened again, probed, flushed, closed and opened a third time");
+	// crash part (shares the enumeration with C02/C03, judged for C07 here)
+	let crash_cap = if tier == Tier::Quick { 25.0 } else { 700.0 };
+	let code = crate::props::crash::run_into(&mut report, "C07", tier, crash_cap);
+	if code != 0 {
+		return code;
+	}
 	report.finish()
 }
 
